@@ -7,7 +7,7 @@ import os
 from common import (Rng, make_tape, trim_tape, run_jobs, run_one, find_site, log, REPO, Inconclusive, hash_str)
 import tgen
 
-MAX_STEPS = 400000
+MAX_STEPS = 6000000
 
 CORPUS = [
     # (directory under analysis/taint/testdata, extra options) : std-importing programs, slow under simulation
@@ -28,7 +28,7 @@ def swarm_params(rng, writer_site=0, allow_writer_starve=False):
     p["numcpu"] = rng.pick([1, 2, 3, 4, 5, 9, 17])  # the analyser uses NumCPU-1 (+1) workers
     p["map_perm_pct"] = rng.pick([0, 5, 30, 100, 100])
     p["map_salt"] = rng.next() & 0xFFFFFFFF
-    p["range_yield_pct"] = rng.pick([0, 0, 10, 100])
+    p["range_yield_pct"] = rng.pick([0, 0, 0, 10, 40])
     if rng.chance(25):
         p["prio_salt"] = (rng.next() & 0xFFFFFFFF) | 1
         p["tape"] = make_tape(rng, 6000, "sparse")
@@ -110,9 +110,10 @@ def short_panic(text):
 
 # ---------------------------------------------------------------- minimisation
 
-def minimise(binary, job, still_fails, budget=60):
-    """Shrinks tape, parameters and (for generated programs) the program text while still_fails(result) holds.
-    Every candidate runs in a fresh worker process."""
+def minimise(binary, job, still_fails, budget=140):
+    """Shrinks tape, parameters and (for generated programs) the program text while still_fails(result, job)
+    holds. Every candidate runs in a fresh worker process; predicates that compare against a reference run
+    recompute the reference for the candidate job (a shrunk program has another reference verdict)."""
     attempts = [0]
 
     def ok(j):
@@ -121,7 +122,7 @@ def minimise(binary, job, still_fails, budget=60):
         attempts[0] += 1
         r = run_one(binary, j, timeout=300)
         try:
-            return bool(still_fails(r))
+            return bool(still_fails(r, j))
         except Exception:  # noqa
             return False
 
